@@ -97,6 +97,10 @@ type Scenario struct {
 	// of every attempt.
 	Decoy      string `json:"decoy,omitempty"`
 	DecoyFirst bool   `json:"decoy_first,omitempty"`
+	// Query is the kind of query Subscribe is given (query.go): "" is the valid
+	// Stream query; the others vary the query type and the ways Query.Validate
+	// rejects a query.
+	Query string `json:"query,omitempty"`
 	// Attempts scripts the first len(Attempts) attempts; every later attempt
 	// connects at once, delivers nothing and blocks.
 	Attempts []Attempt `json:"attempts"`
@@ -173,6 +177,9 @@ func (sc *Scenario) validate() error {
 	}
 	if sc.Decoy != "" && !knownErrKind(sc.Decoy) {
 		return fmt.Errorf("decoy error kind %q", sc.Decoy)
+	}
+	if !knownQueryKind(sc.Query) {
+		return fmt.Errorf("query kind %q", sc.Query)
 	}
 	if len(sc.Attempts) > 64 {
 		return fmt.Errorf("too many attempts")
@@ -272,6 +279,9 @@ func (sc *Scenario) predict(n int) []span {
 	t := sc.subInstant()
 	for i := 0; i < n; i++ {
 		a := sc.attempt(i)
+		if queryInvalid(sc.Query) {
+			a = Attempt{Conn: "err", Sub: "ok", End: "err"} // every attempt fails at once
+		}
 		s := span{start: t}
 		okErr := false // attempt returns nil
 		d := time.Duration(a.ConnDelay) * Unit
